@@ -748,6 +748,27 @@ func ruleNestedReset(p *Program, r *Report, rule string, list []stateType) {
 							if root == crecv && (sel == "."+fname || sel == "."+fname+"^") {
 								return true
 							}
+							// Reset through a selector helper (w.active().Reset(x)): the field is among those the helper hands
+							// back, and the others are the standard-library delegate, whose presence is the delegation mode
+							if sels, ok := selectorHelperFields(on, crecv); ok {
+								has, othersDelegate := false, true
+								for _, s2 := range sels {
+									if s2 == "."+fname {
+										has = true
+									} else if st := derefStruct(crecv.Type()); st != nil {
+										isDeleg := false
+										for i := 0; i < st.NumFields(); i++ {
+											if "."+st.Field(i).Name() == s2 && isNamedType(st.Field(i).Type(), stdFlate, "Writer") {
+												isDeleg = true
+											}
+										}
+										othersDelegate = othersDelegate && isDeleg
+									}
+								}
+								if has && othersDelegate {
+									return true
+								}
+							}
 						}
 						// helper method of the same receiver
 						if fcal := com.StaticCallee(); fcal != nil && fcal.Blocks != nil && len(com.Args) > 0 && com.Args[0] == crecv && fcal != cfn {
